@@ -28,6 +28,7 @@ def run(ctx):
     R.rule("C03-R1", "append at `reserved` only in the Packed state; resize packs or has nothing to pack on every exit", floor=4)
     R.rule("C03-R2", "hole placement guarded by offset+bytes<=size; ordered scan advances the candidate only to aligned upper ends", floor=4)
     R.rule("C03-R3", "migration re-points every reservation and copies every block before deleting the old buffer", floor=10)
+    R.rule("C03-R6", "interval sweep: within a block the running end only grows (max with itself); it is overwritten only where a new block starts", floor=3)
     R.rule("C03-R4", "block-tracking loops of resize / setAlignment agree", floor=3)
     R.rule("C03-R5", "reservations ordered by (offset, size)", floor=3)
 
@@ -258,6 +259,28 @@ def run(ctx):
          "sizing loop accumulates the same rounded block sizes as the packing loop" if nr(s_rz) == nr(s_sz) else "the new buffer is sized differently from how the blocks are packed: %s vs %s" % (nr(s_rz), nr(s_sz)))
     off = lambda s: sorted(x for x in s if x.startswith("(offset ") or x.startswith("reservationSize"))
     R.ob("C03-R4", off(s_rz) == off(s_mg), MP + "resize/setAlignment", "loops:same packed offsets", sa.site(lp_sa), "migration advances the packed offset by the same rounded block size")
+    # ---- R6: the reservations are sorted by (offset, size); a reservation inside the current block can end BEFORE the block does ----------
+    for f, lp, nm in ((rz, lp_rz, "resize"), (sa, sizing[0], "setAlignment(sizing)"), (sa, lp_sa, "setAlignment(migration)")):
+        tests = [n for n in walk(kids(lp)[0]) if n["k"] == "IfStmt" and strip(kids(n)[0])["k"] == "BinaryOperator" and strip(kids(n)[0]).get("op") in (">", "<", ">=", "<=")
+                 and all(strip(x)["k"] == "DeclRefExpr" and strip(x).get("loc") for x in kids(strip(kids(n)[0])))]
+        if len(tests) != 1:
+            raise AnalysisBroken("%s: the new-block test of the sweep was not found" % nm)
+        t = strip(kids(tests[0])[0])
+        a, b = [strip(x) for x in kids(t)]
+        # the running end is the operand that is written inside the loop; the other one is the next reservation's start
+        written = {strip(write_target(n)).get("d") for n in walk(kids(lp)[0]) if write_target(n) is not None and strip(write_target(n))["k"] == "DeclRefExpr"}
+        end = a if a.get("d") in written else b
+        then_ids = {x["i"] for x in walk(kids(tests[0])[1])}
+        ws = [n for n in walk(kids(lp)[0]) if write_target(n) is not None and strip(write_target(n)).get("d") == end["d"]]
+        same = [n for n in ws if n["i"] not in then_ids]
+        okm = bool(same)
+        for n in same:
+            rhs = strip(kids(n)[1])
+            mx = is_call(rhs) and callee(rhs).endswith("std::max") and any(strip(x)["k"] == "DeclRefExpr" and strip(x).get("d") == end["d"] for x in call_args(rhs))
+            okm = okm and bool(mx)
+        R.ob("C03-R6", okm, f.q, "sweep:%s: `%s` inside a block <- max(%s, ...)" % (nm, end.get("n", "end"), end.get("n", "end")), f.site(same[0]) if same else f.site(tests[0]),
+             "the block end never moves backwards" if okm else
+             "the running end of the current block is overwritten by the end of the reservation just visited: a slice strictly inside a live reservation sorts after it and pulls the block end back - the tail of the parent is neither counted in `reserved` nor copied to the new buffer")
     # allocation size of the new buffer in setAlignment is the total computed by the sizing loop
     ml = [c for c in sa.walk() if c["k"] == "CXXMemberCallExpr" and callee(c).endswith("modeBuffer_t::malloc")]
     ok = len(ml) == 1 and render(strip(call_args(ml[0])[0]), False) == "newReserved" and sa.cfg.before(sizing[0], ml[0])
